@@ -3751,10 +3751,16 @@ impl<'source> Parser<'source> {
             'u' => match chars.next() {
                 Some('{') => {
                     let mut code = 0;
+                    let mut digit_count = 0;
 
                     while let Some(c) = chars.peek().cloned() {
                         if c.is_ascii_hexdigit() {
                             chars.next();
+                            digit_count += 1;
+                            // 1-6 digits are allowed, the check below also prevents overflow
+                            if digit_count > 6 {
+                                return self.error(UnicodeEscapeCodeOutOfRange);
+                            }
                             code *= 16;
                             code += c.to_digit(16).unwrap();
                         } else {
@@ -3763,6 +3769,9 @@ impl<'source> Parser<'source> {
                     }
 
                     match chars.next() {
+                        Some('}') if digit_count == 0 => {
+                            self.error(UnexpectedCharInNumericEscapeCode)
+                        }
                         Some('}') => match char::from_u32(code) {
                             Some(c) => Ok(c),
                             None => self.error(UnicodeEscapeCodeOutOfRange),
